@@ -49,16 +49,19 @@ Shift(off, r, c) == { <<r + o[1], c + o[2]>> : o \in off }              \* r, c 
 PlacedCells(bl, k, r, c) == Shift(BlockCells(Rot(bl, k)), r, c)
 
 (* ---------- legality and the mask ---------- *)
-FreeAt(s, cells) == \A p \in cells : InGrid(GR, GC, p) /\ s.grid[p[1]][p[2]] = 0
+\* every cell of the offsets `off` (1-based, inside the 3x3 box), moved to corner (r, c), is an empty cell of the grid
+FreeAt(s, off, r, c) ==
+  \A o \in off : /\ (r + o[1]) \in 1..GR /\ (c + o[2]) \in 1..GC
+                 /\ s.grid[r + o[1]][c + o[2]] = 0
 Legal(s, a) ==
   /\ ~s.placed_blocks[a[1] + 1]
-  /\ FreeAt(s, PlacedCells(s.blocks[a[1] + 1], a[2], a[3], a[4]))
+  /\ FreeAt(s, BlockCells(Rot(s.blocks[a[1] + 1], a[2])), a[3], a[4])
 PackRow(bits, n) == SumTo([c \in 1..n |-> IF bits[c] THEN 2 ^ (c - 1) ELSE 0], n)
 Mask(s) ==
   [b \in 1..NB |-> [k \in 1..4 |->
-     LET off == BlockCells(Rot(s.blocks[b], k - 1)) IN
-     [r \in 1..(GR - 2) |->
-        PackRow([c \in 1..(GC - 2) |-> ~s.placed_blocks[b] /\ FreeAt(s, Shift(off, r - 1, c - 1))], GC - 2)]]]
+     IF s.placed_blocks[b] THEN [r \in 1..(GR - 2) |-> 0]
+     ELSE LET off == BlockCells(Rot(s.blocks[b], k - 1)) IN
+          [r \in 1..(GR - 2) |-> PackRow([c \in 1..(GC - 2) |-> FreeAt(s, off, r - 1, c - 1)], GC - 2)]]]
 MaskBit(m, a) == (m[a[1] + 1][a[2] + 1][a[3] + 1] \div (2 ^ a[4])) % 2 = 1
 NoMaskBit(m) == \A b \in 1..NB : \A k \in 1..4 : \A r \in 1..(GR - 2) : m[b][k][r] = 0
 
@@ -94,9 +97,14 @@ Obs(s) == [grid |-> s.grid, blocks |-> s.blocks, action_mask |-> Mask(s)]
 (* ---------- feasibility of the partial packing (C06), recomputed from the raw arrays ---------- *)
 CellsWithValue(g, v) == { p \in AllCells : g[p[1]][p[2]] = v }
 \* the cells carrying block b's number are one complete rotated, translated copy of block b lying inside the grid
-IntactCopy(s, b) ==
+MinOf(S) == CHOOSE x \in S : \A y \in S : x <= y
+IntactCopy(s, b) ==     \* (if a translation exists it is the one that aligns the top-left corners of the bounding boxes)
   LET cs == CellsWithValue(s.grid, BlockValue(s.blocks[b])) IN
-  \E k \in 0..3 : \E r \in -2..(GR - 1) : \E c \in -2..(GC - 1) : cs = PlacedCells(s.blocks[b], k, r, c)
+  /\ cs # {}
+  /\ \E k \in 0..3 :
+       LET off == BlockCells(Rot(s.blocks[b], k)) IN
+       cs = Shift(off, MinOf({ p[1] : p \in cs }) - MinOf({ o[1] : o \in off }),
+                       MinOf({ p[2] : p \in cs }) - MinOf({ o[2] : o \in off }))
 InsideContainer(s) == \A b \in 1..NB : s.placed_blocks[b] => IntactCopy(s, b)
 NoOverlap(s) ==
   /\ \A p \in AllCells : s.grid[p[1]][p[2]] # 0 =>
